@@ -93,6 +93,7 @@ def _child_main(wfd: int, job: dict) -> None:
             scenario["seed"] = job["seed"]
         ctx = core.Ctx(ENGINE.prop)
         ctx.log("seed", scenario.get("seed"))
+        core.apply_process_env(scenario, ctx)
         ENGINE.execute(scenario, ctx, scratch)
         res = ctx.result()
         res["scen_digest"] = core.h64(core.jdump(scenario))
